@@ -43,6 +43,17 @@ class StreamSuite(cc.ChanSuite):
                         yield {"pieces": cc.timed(pieces), "accept": [],
                                "ops": [["push_prompt", {"lit": P.hex()}], ["push_stream", 0, show], ["rup", None, None], ["pop"],
                                        ["push_stream", 1, False], ["pop"]]}
+        # a prompt that repeats its own beginning inside itself: the hold-back is the LONGEST suffix that could still
+        # become the prompt
+        P2 = b"a>a# "
+        alpha2 = sorted(set(P2)) + [ord("x")]
+        for n in range(0, 3):
+            for body in itertools.product(alpha2, repeat=n):
+                stream = bytes(body) + P2
+                for pieces in cc.all_compositions(stream):
+                    yield {"pieces": cc.timed(pieces), "accept": [],
+                           "ops": [["push_prompt", {"lit": P2.hex()}], ["push_stream", 0, False], ["rup", None, None], ["pop"],
+                                   ["push_stream", 1, False], ["pop"]], "meta": {"kind": "selfrep"}}
         # consecutive commands, several streams, reads that do not end at the prompt, non-ASCII
         for _ in range(8000 if thorough else 2000):
             ops = [["push_prompt", {"lit": P.hex()}]]
